@@ -333,7 +333,11 @@ def lookup_pcs(rng, fns, L):
 
 def cert_blob(rng, size):
     body = rand_bytes(rng, max(0, size - 8))
-    return (struct.pack("<IHH", size & U32, rng.choice([0x0100, 0x0200]), rng.choice([1, 2, 9, 0xEF01])) + body)[:max(size, 0)]
+    dwlen = size
+    if rng.random() < 0.25:
+        # padded certificate / several certificates / garbage length: dwLength differs from the directory size
+        dwlen = rng.choice([max(0, size - 1), max(0, size - 5), 8, 0, size + 8, U32, size // 2])
+    return (struct.pack("<IHH", dwlen & U32, rng.choice([0x0100, 0x0200]), rng.choice([1, 2, 9, 0xEF01])) + body)[:max(size, 0)]
 
 
 # ---------------------------------------------------------------- cases
